@@ -8,6 +8,10 @@ import (
 )
 
 func zzOneOf(x string, set string) bool {
+	if set == "*" {
+		// any outcome: only panic-freedom and atomicity are asserted for this script
+		return true
+	}
 	for _, s := range strings.Split(set, "|") {
 		if s == x {
 			return true
